@@ -847,6 +847,7 @@ static void run_transport(vh_rng_t *rng)
   /* a send on a stream socket whose handshake has not finished: "try again" in run A (Linux), a hard ENOTCONN in half of
    * the B runs (BSD, macOS, Windows) - the library never has a reason to make such a call */
   sim_cfg.bsd_send_on_connecting = vh_chance(&seg_rng, 1, 2);
+  sim_cfg.tfo_late_handshake     = vh_chance(&seg_rng, 1, 2);
   /* NOTE: how the application polls (one descriptor per call, blocking-socket mode) is deliberately NOT varied
    * between A and B: reporting readiness late lets timers fire first, which legitimately changes outcomes and
    * has nothing to do with how the transport chops bytes. */
